@@ -469,3 +469,42 @@ Definition e_handlers (v : uval) : uval :=
   let '(eco, mixers, therms) := fold_left step (getL (arg 1 v)) ([], [], []) in
   VL (map (vparam product) eco ++ flat_map (fun q => map (vparam product) (snd q)) mixers ++
       flat_map (fun q => map (vparam product) (snd q)) therms).
+
+(* ---- C05 decoders ---- *)
+From PV Require Import Model.SensorData Model.OtherKinds.
+Definition vthermo (q : N * thermo) : uval :=
+  VL [vN (fst q); vN (th_state (snd q)); vN (th_current (snd q)); vN (th_target (snd q)); vbool (th_contacts (snd q)); vbool (th_schedule (snd q))].
+Definition vmixer (q : N * mixer_s) : uval := VL [vN (fst q); vN (mx_current (snd q)); vN (mx_target (snd q)); vbool (mx_pump (snd q))].
+Definition vsensors (s : sensors) : uval :=
+  VL [vpairs (s_versions s); vN (s_state s); vN (s_outputs s); vN (s_flags s); vpairs (s_temps s); vbytes (s_statuses s);
+      vN (s_pending s); vopt vN (s_fuel_level s); vN (s_transmission s); vopt vN (s_fan_power s); vopt vN (s_boiler_load s);
+      vopt vN (s_boiler_power s); vopt vN (s_fuel_consumption s); vN (s_thermostat s); vlist (vopt vbytes) (s_modules s);
+      vopt (fun l => let '(a, b, c) := l in VL [vN a; vN b; vN c]) (s_lambda s);
+      vopt (fun t => VL [vN (fst t); vlist vthermo (snd t)]) (s_thermostats s);
+      VL [vN (fst (s_mixers s)); vlist vmixer (snd (s_mixers s))]].
+Definition e_decode_sensor (v : uval) : uval := vopt (fun r => VL [vsensors (fst r); vnat (snd r)]) (decode_sensor_data (getbytes v)).
+Definition e_decode_schema (v : uval) : uval := vopt (vopt vpairs) (decode_schema (getbytes v)).
+(* [schema option; bytes] *)
+Definition e_decode_regdata (v : uval) : uval :=
+  vopt (vopt (fun r => VL [vpairs (fst r); vopt (vlist (fun q => VL [vN (fst q); vdval (snd q)])) (snd r)]))
+       (decode_regdata (getopt getpairs (arg 0 v)) (getbytes (arg 1 v))).
+Definition vdt (d : N * N * N * N * N * N) : uval := let '(y, mo, dd, h, mi, s) := d in VL [vN y; vN mo; vN dd; vN h; vN mi; vN s].
+Definition e_decode_alerts (v : uval) : uval :=
+  vopt (fun r => VL [vN (fst r); vopt (vlist (fun a => VL [vN (a_code a); vdt (a_from a); vopt vdt (a_to a)])) (snd r)]) (decode_alerts (getbytes v)).
+Definition e_decode_product (v : uval) : uval :=
+  vopt (fun p => VL [vN (pr_type p); vN (pr_id p); vbytes (pr_uid p); vN (pr_logo p); vN (pr_image p); vbytes (pr_model p)]) (decode_product (getbytes v)).
+Definition e_decode_password (v : uval) : uval := vopt vbytes (decode_password (getbytes v)).
+
+(* ---- C05 spec encoders ---- *)
+From PV Require Import Spec.C05s.
+Definition getsv (v : uval) : sensor_val :=
+  mkSV (getpairs (arg 0 v)) (getN (arg 1 v)) (getN (arg 2 v)) (getN (arg 3 v)) (getpairs (arg 4 v)) (getbytes (arg 5 v))
+       (getbytes (arg 6 v)) (getN (arg 7 v)) (getN (arg 8 v)) (getN (arg 9 v)) (getN (arg 10 v)) (getN (arg 11 v)) (getN (arg 12 v))
+       (getN (arg 13 v)) (map (getopt getbytes) (getL (arg 14 v)))
+       (getopt (fun l => (getN (arg 0 l), getN (arg 1 l), getN (arg 2 l))) (arg 15 v))
+       (getopt (fun t => (getN (arg 0 t), map (fun x => mkTV (getN (arg 0 x)) (getN (arg 1 x)) (getN (arg 2 x))) (getL (arg 1 t)))) (arg 16 v))
+       (map (fun x => mkMV (getN (arg 0 x)) (getN (arg 1 x)) (getN (arg 2 x)) (getN (arg 3 x)) (getN (arg 4 x))) (getL (arg 17 v))).
+Definition e_enc_sensor (v : uval) : uval := vbytes (enc_sensor (getsv v)).
+Definition e_view_sensor (v : uval) : uval := vsensors (view_sensor (getsv v)).
+Definition e_wf_sensor (v : uval) : uval := vbool (wf_sensor (getsv v)).
+Definition e_enc_schema (v : uval) : uval := vbytes (enc_schema (getpairs v)).
